@@ -93,8 +93,11 @@ def run(ctx):
              "and Docker, duplicates, the same tar in two encodings, already-converted eStargz/zstd:chunked/"
              "external-TOC input) converted CONCURRENTLY by one converter instance with random common and per-layer "
              "options; conversions interrupted mid-stream / with garbage left under the writer ref / interrupted "
-             "between layer commit and TOC write, then retried; whole images through containerd's "
-             "DefaultIndexConvertFunc (config diff_ids re-checked). distinct = table row, or (scenario, converter "
+             "between layer commit and TOC write, then retried; for EVERY converter half of a previous output left "
+             "under the converter's own ingest ref, then retried (result must equal the clean run); whole images "
+             "through containerd's DefaultIndexConvertFunc (config diff_ids re-checked, finalize given the converted "
+             "image) and multi-platform indexes (linux/amd64+linux/arm64, shared and platform-specific layers: the TOC "
+             "image must map the layers of every platform). distinct = table row, or (scenario, converter "
              "variant, batch shape, option set). The driver lines compare the media-type function and the TOC-image "
              "contents (puts in random order, manifest layers, fetchTOCBlobFromManifest lookups) with the Lean model"
              + ("" if quick else "; thorough: the batch/retry/image scenarios again under -race"),
